@@ -44,6 +44,14 @@ import (
 	fxtypes "github.com/functionx/fx-core/v8/types"
 	fxstakingtypes "github.com/functionx/fx-core/v8/x/staking/types"
 
+	"cosmossdk.io/log"
+	abci "github.com/cometbft/cometbft/abci/types"
+	dbm "github.com/cosmos/cosmos-db"
+	"github.com/ethereum/go-ethereum/common"
+	"github.com/spf13/viper"
+
+	"github.com/functionx/fx-core/v8/app"
+
 	"fxverif/lib"
 )
 
@@ -67,6 +75,9 @@ type Op struct {
 	Rs    []string `json:"-"`               // block/mature: rewards allocated to each validator (observed)
 	Must  bool     `json:"must,omitempty"`  // exit phase: has to succeed
 	Setup bool     `json:"setup,omitempty"` // set-up phase (validator operators act)
+	Zero  bool     `json:"zero,omitempty"`  // export: for zero height
+	Catch bool     `json:"catch,omitempty"` // approveRev: the reverting frame is called by a contract that swallows the failure
+	Ord   []int    `json:"-"`               // export: the delegators in address order (filled in when executed)
 }
 
 type History struct {
@@ -182,11 +193,27 @@ type World struct {
 	dq     distrkeeper.Querier
 	selfOK bool // a sender == recipient transfer has been accepted in this history
 
-	valKeys []lib.Key        // operator keys, in the order of w.vals
-	paid    map[int]*big.Int // rewards paid out so far by account (from liquid balance deltas)
+	lastBlock bool             // nothing has been applied since the last block was committed
+	valKeys   []lib.Key        // operator keys, in the order of w.vals
+	paid      map[int]*big.Int // rewards paid out so far by account (from liquid balance deltas)
 }
 
 const opBase = 100 // ids of the validator operators: 100+i
+
+// two contracts (no solc here: assembled by hand):
+//
+//	revID   forwards its calldata to the staking precompile (so the precompile's caller is this contract)
+//	        and then REVERTs — whatever the precompile did in that frame must be gone;
+//	catchID calls revID with its calldata and swallows the failure (try/catch): the transaction succeeds.
+const (
+	revID   = 50
+	catchID = 51
+)
+
+var (
+	revAddr   = common.HexToAddress("0x00000000000000000000000000000000000c1150")
+	catchAddr = common.HexToAddress("0x00000000000000000000000000000000000c1151")
+)
 
 // newWorld builds the chain and stops right after InitChain: the history starts at genesis
 // (model.M_Shares.gen_state), the set-up operations are ordinary recorded steps.
@@ -213,7 +240,99 @@ func newWorld(seed int64, nVals, nAcc int) *World {
 		w.valID[k.Val().String()] = i
 		w.accID[k.Acc().String()] = opBase + i
 	}
+	w.accID[sdk.AccAddress(revAddr.Bytes()).String()] = revID
+	w.accID[sdk.AccAddress(catchAddr.Bytes()).String()] = catchID
+	c.InstallCode(c.Ctx, revAddr, (&lib.Asm{}).ForwardCalldata(lib.CALL, lib.StakingPrecompile).Ignore().Revert().B)
+	c.InstallCode(c.Ctx, catchAddr, (&lib.Asm{}).ForwardCalldata(lib.CALL, revAddr).Ignore().Stop().B)
 	return w
+}
+
+// evmTo sends calldata from an EOA to a contract; returns the EVM-level failure, if any
+func (w *World) evmTo(from int, to common.Address, data []byte) error {
+	var callErr error
+	err := w.c.Try(func(ctx sdk.Context) error {
+		res := w.c.EvmCall(ctx, w.key(from).Hex(), &to, nil, 5_000_000, data)
+		if res.Err != nil {
+			return res.Err
+		}
+		if res.Failed {
+			callErr = fmt.Errorf("evm: %s", res.VmError)
+		}
+		return nil
+	})
+	if err != nil {
+		return err
+	}
+	return callErr
+}
+
+// delegatorOrder: every account that can hold a delegation, in address order (the order of
+// StakingKeeper.GetAllDelegations, which prepForZeroHeightGenesis walks)
+func (w *World) delegatorOrder() []int {
+	type ent struct {
+		id   int
+		addr []byte
+	}
+	var l []ent
+	for i, k := range w.accs {
+		l = append(l, ent{i, k.Acc()})
+	}
+	for i, k := range w.valKeys {
+		l = append(l, ent{opBase + i, k.Acc()})
+	}
+	l = append(l, ent{revID, revAddr.Bytes()}, ent{catchID, catchAddr.Bytes()})
+	sort.Slice(l, func(a, b int) bool { return bytes.Compare(l[a].addr, l[b].addr) < 0 })
+	var out []int
+	for _, e := range l {
+		out = append(out, e.id)
+	}
+	return out
+}
+
+// exportImport: the application-level restart path. The committed state is exported
+// (ExportAppStateAndValidators, optionally "for zero height") and a FRESH application on an empty database
+// is initialised from that genesis; the history continues on the new application.
+// (The ibc section is replaced by the default one: the test chain's localhost client cannot be imported.)
+func (w *World) exportImport(zero bool) (err error) {
+	defer func() {
+		if r := recover(); r != nil {
+			err = fmt.Errorf("PANIC in export/import: %v", r)
+		}
+	}()
+	c := w.c
+	exported, err := c.App.ExportAppStateAndValidators(zero, nil, nil)
+	if err != nil {
+		return fmt.Errorf("export: %w", err)
+	}
+	v := viper.New()
+	for k, val := range c.Opts {
+		v.Set(k, val)
+	}
+	na := app.New(log.NewNopLogger(), dbm.NewMemDB(), nil, true, map[int64]bool{}, fxtypes.GetDefaultNodeHome(), v)
+	var gs app.GenesisState
+	if err := json.Unmarshal(exported.AppState, &gs); err != nil {
+		return err
+	}
+	gs["ibc"] = app.NewDefAppGenesisByDenom(na.AppCodec(), na.ModuleBasics)["ibc"]
+	bz, err := json.Marshal(gs)
+	if err != nil {
+		return err
+	}
+	initial := exported.Height
+	if initial == 0 {
+		initial = 1
+	}
+	cp := app.CustomGenesisConsensusParams().ToProto()
+	if _, err := na.InitChain(&abci.RequestInitChain{Time: c.Time, ConsensusParams: &cp, AppStateBytes: bz, InitialHeight: initial}); err != nil {
+		return fmt.Errorf("InitChain on the exported genesis: %w", err)
+	}
+	c.App = na
+	c.Height = initial - 1
+	c.Ctx = na.GetContextForFinalizeBlock(nil).WithProposer(c.ValSet.Proposer.Address.Bytes()).WithBlockTime(c.Time)
+	w.smsg = stakingkeeper.NewMsgServerImpl(c.App.StakingKeeper.Keeper)
+	w.dmsg = distrkeeper.NewMsgServerImpl(c.App.DistrKeeper)
+	w.dq = distrkeeper.NewQuerier(c.App.DistrKeeper)
+	return nil
 }
 
 // setupOps: a first block, then every operator adds 5000 FX to its self-delegation (keeps the validator's
@@ -521,7 +640,7 @@ func (w *World) validOp(o Op) bool {
 	okAcc := func(i int) bool {
 		return i >= 0 && i < len(w.accs) || o.Setup && o.K == "delegate" && i >= opBase && i < opBase+len(w.vals)
 	}
-	if o.K == "block" || o.K == "mature" {
+	if o.K == "block" || o.K == "mature" || o.K == "export" {
 		return true
 	}
 	if o.V < 0 || o.V >= nv {
@@ -530,6 +649,8 @@ func (w *World) validOp(o Op) bool {
 	switch o.K {
 	case "slash", "jail", "unjail":
 		return true
+	case "approveRev":
+		return okAcc(o.A) && okAcc(o.B)
 	case "redelegate":
 		return o.W >= 0 && o.W < nv && okAcc(o.A)
 	case "approve", "transfer":
@@ -542,6 +663,30 @@ func (w *World) validOp(o Op) bool {
 
 func (w *World) apply(o *Op) error {
 	c := w.c
+	wasBlock := w.lastBlock
+	w.lastBlock = o.K == "block" || o.K == "mature"
+	switch o.K {
+	case "export":
+		if !wasBlock {
+			panic("export must follow a block (it reads the committed state)")
+		}
+		o.Ord = w.delegatorOrder()
+		err := w.exportImport(o.Zero)
+		w.lastBlock = err == nil
+		return err
+	case "approveRev":
+		// approveShares(val, spender, x) executed by the reverting contract (owner = that contract)
+		data, err := fxstakingtypes.GetABI().Pack("approveShares", w.vals[o.V].String(), w.key(o.B).Hex(), bigOf(o.X))
+		lib.Must(err)
+		target := revAddr
+		if o.Catch {
+			target = catchAddr
+		}
+		if err := w.evmTo(o.A, target, data); err != nil {
+			return err
+		}
+		return fmt.Errorf("the frame that called approveShares reverted (the transaction itself succeeded)")
+	}
 	val := func(i int) string { return w.vals[i].String() }
 	switch o.K {
 	case "delegate":
@@ -672,6 +817,14 @@ func (o Op) coq() string {
 		return "Mature " + lib.List(o.Rs)
 	case "slash":
 		return fmt.Sprintf("SlashVal %s %s %d %s", z(o.V), lib.Z(o.Ih), o.Power, o.Frac)
+	case "export":
+		var l []string
+		for _, id := range o.Ord {
+			l = append(l, z(id))
+		}
+		return fmt.Sprintf("ExportImport %s %s", lib.Bool(o.Zero), lib.List(l))
+	case "approveRev":
+		return fmt.Sprintf("Reverted (Approve %s %d %s %s)", z(o.V), revID, z(o.B), o.X)
 	case "jail":
 		return "Jail " + z(o.V)
 	case "unjail":
@@ -682,8 +835,10 @@ func (o Op) coq() string {
 
 func (o Op) touched() []int {
 	switch o.K {
-	case "block", "mature":
+	case "block", "mature", "approveRev":
 		return nil
+	case "export":
+		return []int{0, 1, 2}
 	case "slash":
 		if o.Back > 0 {
 			return []int{0, 1} // redelegation destinations change too; the final records cover validator 2
@@ -884,6 +1039,9 @@ func (w *World) monitor(o Op, before, after Snap, balBefore map[int]*big.Int, pe
 			add("approve", "approve(%s) left allowance %s", o.X, after.allowance(o.V, o.A, o.B))
 		}
 	}
+	if o.K == "export" && err != nil {
+		add("export-failed", "export (zero height: %v) and re-import failed: %s", o.Zero, oneLine(err.Error()))
+	}
 	if o.Must && err != nil {
 		add("exit-blocked", "%s by account %d on validator %d (amount %s) failed at the end of the history: %v", o.K, o.A, o.V, o.X, oneLine(err.Error()))
 	}
@@ -1026,6 +1184,13 @@ func (w *World) gen(r *lib.Rand, s Snap, self bool) Op {
 		default:
 			x = shareAmt(owner)
 		}
+		if r.Chance(15) {
+			// the same approval made by a contract whose frame reverts afterwards: must leave no allowance
+			if x.Sign() == 0 {
+				x = big.NewInt(int64(1 + r.Intn(1000)))
+			}
+			return Op{K: "approveRev", V: v, A: anyAcc(), B: sp, X: x.String(), Catch: r.Chance(50)}
+		}
 		return Op{K: "approve", V: v, A: owner, B: sp, X: x.String()}
 	case p < 72:
 		from := holder()
@@ -1078,11 +1243,14 @@ func (w *World) gen(r *lib.Rand, s Snap, self bool) Op {
 			}
 		}
 		return Op{K: "transferFrom", V: v, A: sp, B: from, C: to, X: x.String()}
-	case p < 93:
+	case p < 92:
 		fee := new(big.Int).Mul(big.NewInt(int64(1+r.Intn(2000))), big.NewInt(1e15))
 		fee.Add(fee, big.NewInt(int64(r.Intn(1000))))
 		return Op{K: "block", X: fee.String()}
 	case p < 94:
+		if r.Chance(60) {
+			return Op{K: "lifecycle", V: v, Zero: r.Chance(70)}
+		}
 		return Op{K: "mature", X: "1000000000000000000"}
 	case p < 98:
 		pw := new(big.Int).Quo(s.Vals[v].Tokens, new(big.Int).Mul(big.NewInt(100), one18)).Int64()
@@ -1226,6 +1394,18 @@ func runHistory(h History, r *lib.Rand, n int) *result {
 			o, queue = queue[0], queue[1:]
 		} else if step < n {
 			o = w.gen(r, cur, self)
+			if o.K == "lifecycle" {
+				// export the committed state (after a block) and continue on a fresh application; then a
+				// slash on the new chain and reward blocks, so that every starting info written by the
+				// export is exercised by the operations that follow and by the exit phase
+				pw := new(big.Int).Quo(cur.Vals[o.V].Tokens, new(big.Int).Mul(big.NewInt(100), one18)).Int64()
+				queue = append(queue,
+					Op{K: "export", Zero: o.Zero},
+					Op{K: "block", X: "2000000000000000000"},
+					Op{K: "slash", V: o.V, Power: pw, Frac: fracs[r.Intn(len(fracs))]},
+					Op{K: "block", X: "1000000000000000000"})
+				o = Op{K: "block", X: "1000000000000000000"}
+			}
 		} else {
 			if !exitQueued {
 				exitQueued = true
@@ -1334,6 +1514,12 @@ func runHistory(h History, r *lib.Rand, n int) *result {
 				if len(cur.Vals[o.V].Slashes) > 0 {
 					res.stats["transfer:on-slashed-validator"]++
 				}
+			case "export":
+				if o.Zero {
+					res.stats["export:zero-height"]++
+				} else {
+					res.stats["export:as-is"]++
+				}
 			case "redelegate":
 				if cur.Vals[o.V].Status != 0 {
 					res.stats["redelegate:from-unbonding-or-unbonded-validator"]++
@@ -1365,7 +1551,7 @@ func main() {
 	seed := lib.Seed()
 	mode := os.Getenv("VERIF_MODE")
 	rep := lib.NewReport("C11")
-	rep.Rule = "histories of delegate/undelegate/redelegate/withdraw/approve/transfer/transferFrom among 3-5 EOAs on 2-3 validators through the real staking precompile (30% of delegate/undelegate/redelegate/withdraw through the SDK msg servers), interleaved with fee-carrying blocks (the per-validator reward allocation is observed and fed to the model), slashing for the current and for past infraction heights, jailing/unjailing (validators leave and re-enter the bonded set) and unbonding-time jumps, closed by 'everyone withdraws and undelegates'; amounts biased to full/partial/over-limit values and exact allowances; stream noself never has sender == recipient, stream self has it in ~25% of transfers; one evaluation = one history; non-trivial = at least one accepted transfer or transferFrom and at least one reward block and the exit phase reached; distinct by full op list"
+	rep.Rule = "histories of delegate/undelegate/redelegate/withdraw/approve/transfer/transferFrom among 3-5 EOAs on 2-3 validators through the real staking precompile (30% of delegate/undelegate/redelegate/withdraw through the SDK msg servers), interleaved with fee-carrying blocks (the per-validator reward allocation is observed and fed to the model), slashing for the current and for past infraction heights, jailing/unjailing (validators leave and re-enter the bonded set), unbonding-time jumps, application export (zero-height or as is) + import into a fresh app followed by a slash and reward blocks, and approveShares made by a contract whose frame reverts, closed by 'everyone withdraws and undelegates'; amounts biased to full/partial/over-limit values and exact allowances; stream noself never has sender == recipient, stream self has it in ~25% of transfers; one evaluation = one history; non-trivial = at least one accepted transfer or transferFrom and at least one reward block and the exit phase reached; distinct by full op list"
 
 	if mode == "replay" {
 		b, err := os.ReadFile(os.Getenv("VERIF_REPLAY"))
